@@ -221,6 +221,11 @@ type eop struct {
 	Hosts  []int  `json:"hosts,omitempty"` // replace: host*2+backup
 	N      int    `json:"n,omitempty"`
 	Conc   bool   `json:"concurrent,omitempty"`
+	// config: the new balancing policy, and the new health check (HC 0: none, 1: TCP checker with Fall / Rise)
+	Policy int `json:"policy,omitempty"`
+	HC     int `json:"hc,omitempty"`
+	Fall   int `json:"fall,omitempty"`
+	Rise   int `json:"rise,omitempty"`
 }
 
 type e2eCase struct {
@@ -305,6 +310,7 @@ func checkE2E(c e2eCase) (nt bool, v *verdict) {
 		handed = append(handed, h)
 		return h
 	}
+	policy, hcOn, fall, rise := c.Policy, true, c.Fall, c.Rise
 	detection := time.Duration(maxInt(c.Fall, c.Rise)+3)*hcInterval + 60*time.Millisecond
 	settle := func() {
 		if d := time.Until(lastFlip.Add(detection)); d > 0 {
@@ -315,8 +321,8 @@ func checkE2E(c e2eCase) (nt bool, v *verdict) {
 	usable := func() []int {
 		var main, backup []int
 		for i, m := range members {
-			if !up[i] {
-				continue
+			if !up[i] && hcOn {
+				continue // without a health check every member counts as healthy
 			}
 			if m.backup {
 				backup = append(backup, i)
@@ -490,6 +496,38 @@ func checkE2E(c e2eCase) (nt bool, v *verdict) {
 				lastFlip = time.Now()
 				flipAt[h] = lastFlip
 			}
+		case "config":
+			// the service configuration is updated at run time: another balancing policy and / or another health check
+			// (other thresholds, or none at all: then every member counts as healthy, as for a service started without one)
+			var nhc *hcpb.HealthCheck
+			if o.HC > 0 {
+				nhc = &hcpb.HealthCheck{Interval: hcInterval, Timeout: 200 * time.Millisecond, FallThreshold: uint32(o.Fall), RiseThreshold: uint32(o.Rise),
+					Checker: &hcpb.HealthCheck_TcpChecker{TcpChecker: &hcpb.TCPChecker{}}}
+			}
+			ncfg := tcpsim.Config(tcpsim.Opts{Policy: service.LoadBalancePolicy(o.Policy), HealthCheck: nhc})
+			ncfg.Listener = px.P.Config().Listener
+			var uerr error
+			var pan interface{}
+			func() {
+				// the controller calls this from its event loop: a panic there ends the whole process
+				defer func() { pan = recover() }()
+				uerr = px.P.OnSvcConfigUpdate(ncfg)
+			}()
+			if pan != nil {
+				return nt, &verdict{"config-update-panics", fmt.Sprintf("%s: OnSvcConfigUpdate panics: %v", where, pan)}
+			}
+			if uerr != nil {
+				return nt, &verdict{"config-update-rejected", fmt.Sprintf("%s: %v", where, uerr)}
+			}
+			policy = o.Policy
+			if o.HC > 0 {
+				hcOn, fall, rise = true, o.Fall, o.Rise
+				detection = time.Duration(maxInt(fall, rise)+3)*hcInterval + 60*time.Millisecond
+			} else {
+				hcOn = false
+			}
+			lastFlip = time.Now()
+			nt = true
 		case "blip":
 			// a member's backend is unreachable for a moment, shorter than the health checker needs to notice: connections
 			// arriving meanwhile may be picked for it and fail (or be served by another member); afterwards everything is as before
@@ -525,7 +563,13 @@ func checkE2E(c e2eCase) (nt bool, v *verdict) {
 			settle() // health state has converged: the usable set is well defined
 			us := usable()
 			n := o.N
-			if c.Policy == 0 && len(us) > 0 {
+			allUp := true
+			for _, u := range us {
+				if !up[u] {
+					allUp = false
+				}
+			}
+			if policy == 0 && len(us) > 0 {
 				n = len(us) * (1 + o.N%3) // n*k consecutive selections
 			}
 			counts := map[int]int{}
@@ -565,7 +609,7 @@ func checkE2E(c e2eCase) (nt bool, v *verdict) {
 			}
 			for bi, k := range counts {
 				if bi < 0 {
-					if len(us) > 0 {
+					if len(us) > 0 && allUp { // (without a health check a member that is down is picked and cannot be reached)
 						return nt, &verdict{"connection-refused-with-usable-host", fmt.Sprintf("%s: %d of %d connections were closed although hosts %v are members, up and detected", where, k, n, us)}
 					}
 					continue
@@ -577,7 +621,7 @@ func checkE2E(c e2eCase) (nt bool, v *verdict) {
 					return nt, &verdict{"relayed-to-unusable-host", fmt.Sprintf("%s: a connection reached backend %d (backup=%v); usable hosts are %v", where, bi, members[bi].backup, us)}
 				}
 			}
-			if c.Policy == 0 && len(us) > 0 {
+			if policy == 0 && len(us) > 0 && allUp {
 				k := n / len(us)
 				for _, u := range us {
 					if counts[u] != k {
@@ -640,6 +684,9 @@ func genE2E(t *rapid.T) e2eCase {
 		switch x := rapid.IntRange(0, 18).Draw(t, "op"); {
 		case x >= 17:
 			o.Op, o.N = "blip", rapid.IntRange(1, 8).Draw(t, "blipn")
+			if rapid.Bool().Draw(t, "cfgop") {
+				o = eop{Op: "config", Policy: rapid.IntRange(0, 2).Draw(t, "npolicy"), HC: rapid.SampledFrom([]int{0, 1, 1}).Draw(t, "nhc"), Fall: rapid.IntRange(1, 3).Draw(t, "nfall"), Rise: rapid.IntRange(1, 3).Draw(t, "nrise")}
+			}
 		case x <= 2:
 			o.Op, o.Backup = "add", rapid.IntRange(0, 2).Draw(t, "backup") == 0
 		case x <= 4:
